@@ -611,7 +611,45 @@ func c01Scenario(u *Unit, name string, sh c01Shape, fault *c01Fault) (*Tracker, 
 
 var c01FaultKinds = []string{"fail", "hang", "delay", "server-dies-before", "server-dies-after", "session-expire", "dcs-fail", "old-master-returns-after"}
 
+// c01Edge: the quorum edge of an automatic failover. Semi-sync cluster of 3-4 nodes with count 1, one replica strictly
+// ahead of the others, and that replica is lost or not frozen at its first read-only / stop-IO call (every such call x
+// {dies before, fails, hangs}): with one member fewer than the quorum frozen nothing may be promoted.
+func c01Edge(u *Unit, k int) {
+	sh := c01Shape{N: 3 + k%2, SemiSync: true, W: 1, Req: "auto_crash", Workload: k%4 < 2, ToIdx: 1}
+	adv := (k / 2) % (sh.N - 1)
+	for i := 1; i < sh.N; i++ {
+		sh.Hist = append(sh.Hist, "behind")
+		sh.MonDelay = append(sh.MonDelay, 3)
+	}
+	sh.Hist[adv] = "equal"
+	for i := 0; i < sh.N; i++ {
+		sh.Prio = append(sh.Prio, 0)
+	}
+	base := fmt.Sprintf("c01-%d-quorum-edge", u.Idx)
+	tr, _ := c01Scenario(u, base+"-baseline", sh, nil)
+	if tr == nil {
+		return
+	}
+	i := 0
+	for _, b := range tr.Boundaries(func(b Boundary) bool {
+		return b.Kind == "sql" && b.Host != haNames[0] && b.Occ == 1 && (b.Class == "set_ro" || b.Class == "stop_io")
+	}) {
+		for _, kind := range []string{"server-dies-before", "fail", "hang"} {
+			if b.Host != haNames[adv+1] && kind != "server-dies-before" {
+				continue // the other replicas: one control fault each
+			}
+			f := c01Fault{b, kind}
+			c01Scenario(u, fmt.Sprintf("%s-f%d-%s-%s", base, i, kind, strings.ReplaceAll(b.Key(), "|", "_")), sh, &f)
+			i++
+		}
+	}
+}
+
 func c01Run(u *Unit) {
+	if nb := tierN(u.Job.Tier, 60, 600); u.Idx >= nb {
+		c01Edge(u, u.Idx-nb)
+		return
+	}
 	sh := c01Gen(u.Seed, u.Idx)
 	base := fmt.Sprintf("c01-%d-%s", u.Idx, sh.Req)
 	tr, res := c01Scenario(u, base+"-baseline", sh, nil)
@@ -650,19 +688,27 @@ func c01Run(u *Unit) {
 	// lost or refuses between the approval and the end of the freeze - the "second fault" of a failover), the rest
 	// is uniform over all boundaries
 	n := tierN(u.Job.Tier, 18, 120)
+	nret := 0
+	if sh.Req == "auto_crash" {
+		nret = tierN(u.Job.Tier, 6, 0) // quick: six more, for the returning old master (thorough samples enough of them anyway)
+		n += nret
+	}
 	if n > len(faults) {
 		n = len(faults)
 	}
-	freeze := func(f c01Fault) bool {
-		if f.B.Kind != "sql" || f.B.Host == haNames[0] || f.B.Occ > 1 {
+	returns := func(f c01Fault) bool {
+		if f.B.Kind != "sql" || f.B.Host == haNames[0] || f.B.Occ > 1 || f.Kind != "old-master-returns-after" {
 			return false
 		}
-		if f.Kind == "old-master-returns-after" {
-			// the crashed master comes back after the positions were read: the calls of the later phases
-			switch f.B.Class {
-			case "change_source", "stop_replica", "reset_replica", "start_replica", "offline_off":
-				return true
-			}
+		// the crashed master comes back after the positions were read: the calls of the later phases
+		switch f.B.Class {
+		case "change_source", "stop_replica", "reset_replica", "start_replica", "offline_off":
+			return true
+		}
+		return false
+	}
+	freeze := func(f c01Fault) bool {
+		if f.B.Kind != "sql" || f.B.Host == haNames[0] || f.B.Occ > 1 || f.Kind == "old-master-returns-after" {
 			return false
 		}
 		switch f.B.Class {
@@ -677,13 +723,36 @@ func c01Run(u *Unit) {
 		return false
 	}
 	k := 0
+	// (the first four of them: the member dies - the only freeze fault after which it is not even read-only)
 	for i := range faults {
-		if k >= n/2 {
+		if k >= 4 || k >= (n-nret)/2 {
+			break
+		}
+		if freeze(faults[i]) && faults[i].Kind == "server-dies-before" {
+			faults[k], faults[i] = faults[i], faults[k]
+			k++
+		}
+	}
+	for i := k; i < len(faults); i++ {
+		if k >= (n-nret)/2 {
 			break
 		}
 		if freeze(faults[i]) {
 			faults[k], faults[i] = faults[i], faults[k]
 			k++
+		}
+	}
+	// (first after the calls that cut the promotion target off its old source - from then on it cannot follow what the
+	// other members may still fetch from the returned master -, then after any other call of the later phases)
+	k2 := 0
+	for pass := 0; pass < 2; pass++ {
+		for i := k; i < len(faults) && k2 < nret && k < n; i++ {
+			cut := faults[i].B.Class == "stop_replica"
+			if returns(faults[i]) && (pass == 1 || cut) {
+				faults[k], faults[i] = faults[i], faults[k]
+				k++
+				k2++
+			}
 		}
 	}
 	for i := 0; i < n; i++ {
@@ -694,7 +763,7 @@ func c01Run(u *Unit) {
 }
 
 func init() {
-	register(&Prop{ID: "C01", Units: func(tier string) int { return tierN(tier, 60, 600) }, Run: c01Run,
+	register(&Prop{ID: "C01", Units: func(tier string) int { return tierN(tier, 60, 600) + tierN(tier, 8, 24) }, Run: c01Run,
 		Floor: func(string) []string {
 			f := []string{"split-brain-abort"}
 			for _, k := range c01Reqs {
@@ -705,5 +774,5 @@ func init() {
 			}
 			return f
 		},
-		Rule: "unit = cluster shape (2-4 HA, cascade, semi-sync on/off, wait count, force_switchover, per-replica GTID history from {equal, behind, far behind, received-but-unapplied tail, gap, errant, applier stopped shortly before the request}, multi-source base, priorities, async mode with allowed lag 20 s and per-replica repl_mon delay {3,19,20,100} s when semi-sync is off) x request kind; a fault-free baseline enumerates the external call boundaries after the request, then one run per sampled (boundary x fault kind), half of the sample stratified to the freeze phase (a member other than the old master dies, fails or hangs at its first read-only / stop-IO call); non-trivial = a promotion event or a split-brain abort was observed; distinct by (n, semi-sync, request, force, fault kind, boundary class, outcome)"})
+		Rule: "(plus 8 quorum-edge units: automatic failover in a 3-4 node semi-sync cluster with count 1 whose most advanced replica dies, fails or hangs at its first freeze call - all such faults, no sampling) unit = cluster shape (2-4 HA, cascade, semi-sync on/off, wait count, force_switchover, per-replica GTID history from {equal, behind, far behind, received-but-unapplied tail, gap, errant, applier stopped shortly before the request}, multi-source base, priorities, async mode with allowed lag 20 s and per-replica repl_mon delay {3,19,20,100} s when semi-sync is off) x request kind; a fault-free baseline enumerates the external call boundaries after the request, then one run per sampled (boundary x fault kind), half of the sample stratified to the freeze phase (a member other than the old master dies, fails or hangs at its first read-only / stop-IO call); non-trivial = a promotion event or a split-brain abort was observed; distinct by (n, semi-sync, request, force, fault kind, boundary class, outcome)"})
 }
